@@ -3,6 +3,9 @@ import MidnightZK.Proofs.C05.Gate
 import MidnightZK.Proofs.C05.Limbs
 import MidnightZK.Proofs.C05.Big
 import MidnightZK.Proofs.C05.EndToEnd
+import MidnightZK.Proofs.C05.BigSat
+import MidnightZK.Proofs.C05.BigOps
+import MidnightZK.Proofs.C05.Bits
 import MidnightZK.Gen.C05Params
 /-!
 # C05 — foreign-field and big-integer gadgets are complete and sound
@@ -708,5 +711,431 @@ theorem big_div_rem_sound_end_to_end (lb numBits : Nat) (xs ys qs rs sb1 sb2 ps 
 example : (match Big.normChain 4 255 0 0 (Big.zipAddLimbs [15, 1] [3, 2]) [5, 3] with
     | .ok r => r == ([2, 4], 0)
     | .error _ => false) = true := by decide +kernel
+
+
+/-! ## BigUint from the CONSTRAINTS: the carries of `normalize` and the witnesses of
+`assign_bounded` are prover-chosen; their range checks are the ones the emitter prints
+(`Big.normRc`, `Big.boundedSb`), read back from the real decomposition chip for EVERY operation
+(`bigrc` lines: `normalize` inside add / mul / sub / div_rem / mod_exp / public-input exposure, the
+internal `assign_bounded` calls of sub / div_rem, the comparisons of `geq`) -/
+
+/-- `normalize_constraints_pin_chain`: take ANY assignment `(qᵢ, rᵢ)` of the cells of the
+`div_rem_native_by_base` steps of `normalize` (cell values as naturals below the native modulus
+`p`, `2^(NUM_BITS-1) ≤ p`) for input limbs within their tracked size bounds. If the range checks
+hold with the bit lengths AS EMITTED (`Big.normRc`: `k_q = max(payload_bound, lb) - lb`,
+`k_r = lb`; `none` = the overflow panic) and every native identity
+`qᵢ·2^lb + rᵢ = carryᵢ₋₁ + xᵢ (mod p)` holds, then the assignment is the honest carry chain of the
+model: a prover cannot choose another carry or limb anywhere in the chain. -/
+theorem normalize_constraints_pin_chain (p lb numBits : Nat) (hp : 2 ^ (numBits - 1) ≤ p)
+    (hlb : lb < numBits) (xs sbs : List Nat) (rc qrs : List (Nat × Nat)) (c : Nat)
+    (hx : limbsWithin xs sbs) (hrc : Big.normRc lb numBits 0 sbs = some rc)
+    (hs : NormSat p lb 0 xs rc qrs c) :
+    Big.normChain lb numBits 0 0 xs sbs = .ok (qrs.map (·.2), c) :=
+  normSat_pins_chain p lb numBits hp hlb xs sbs 0 0 rc qrs c hx (by simp) hrc hs
+
+/-- Non-vacuity (a 2-limb input with a carry; `p = 101`, 7-bit "field"). -/
+example : Big.normRc 2 7 0 [3, 2] = some [(1, 2), (1, 2)] ∧
+    NormSat 101 2 0 [7, 2] [(1, 2), (1, 2)] [(1, 3), (0, 3)] 0 := by
+  refine ⟨by decide, ?_⟩
+  simp [NormSat]
+
+/-- `normalize_sound_from_constraints`: whichever branch `normalize` takes (already normalised /
+carry chain with the final carry asserted zero), for EVERY assignment of the carries and output
+limbs satisfying the emitted range checks and the native identities, the returned limbs are
+normalised (`< 2^lb`), lie within the bounds recorded for them and represent the same integer. -/
+theorem normalize_sound_from_constraints (p lb numBits : Nat) (hp : 2 ^ (numBits - 1) ≤ p)
+    (hlb : lb < numBits) (x x' : BVar) (hx : limbsWithin x.limbs x.sb)
+    (h : NormOut p lb numBits x x') :
+    limbsWithin x'.limbs x'.sb ∧ isNormalized lb x'.sb = true ∧ (∀ z ∈ x'.limbs, z < 2 ^ lb) ∧
+      bigValue lb x'.limbs = bigValue lb x.limbs :=
+  normOut_sound p lb numBits hp hlb x x' hx h
+
+/-- `normalize_constraints_complete` (completeness of the emitted range checks): for every input
+within its tracked bounds on which the emitter does not panic, the honest quotients / remainders
+satisfy all constraints of the chain — the emitted bit lengths are never too tight. -/
+theorem normalize_constraints_complete (p lb numBits : Nat) (x : BVar) (k : Nat)
+    (rc : List (Nat × Nat)) (hx : limbsWithin x.limbs x.sb)
+    (hrc : Big.normRc lb numBits 0 (x.sb ++ List.replicate k 0) = some rc) :
+    ∃ c, NormSat p lb 0 (x.limbs ++ List.replicate k 0) rc
+      (honestQR lb 0 (x.limbs ++ List.replicate k 0)) c :=
+  normOut_complete p lb numBits x k rc hx hrc
+
+/-- `big_add_comm`: the limb-wise sum and its tracked bounds do not depend on the order of the
+operands, WHATEVER the two limb counts (the code has one branch per longer operand: `x` longer /
+`y` longer); hence `add(x, y)` and `add(y, x)` emit the same constraints and return the same
+number. -/
+theorem big_add_comm (lb numBits : Nat) (x y : BVar) :
+    Big.zipAddLimbs x.limbs y.limbs = Big.zipAddLimbs y.limbs x.limbs ∧
+    Big.zipAddBounds x.sb y.sb = Big.zipAddBounds y.sb x.sb ∧
+    Big.add lb numBits x y = Big.add lb numBits y x := by
+  refine ⟨zipAddLimbs_comm _ _, zipAddBounds_comm _ _, ?_⟩
+  unfold Big.add
+  rw [zipAddLimbs_comm, zipAddBounds_comm]
+
+/-- `big_add_wider_second_operand`: the branch `y.limbs.len() > x.limbs.len()` spelled out — on the
+common prefix the limbs are added, the remaining limbs of the result are the HIGH LIMBS OF `y`
+(the longer operand), with `y`'s bounds. -/
+theorem big_add_wider_second_operand (xs ys : List Nat) (h : xs.length ≤ ys.length) :
+    Big.zipAddLimbs xs ys = List.zipWith (· + ·) xs (ys.take xs.length) ++ ys.drop xs.length :=
+  zipAddLimbs_longer_second xs ys h
+
+example : Big.zipAddLimbs [1] [10, 20, 30] = [11, 20, 30] ∧
+    Big.zipAddLimbs [10, 20, 30] [1] = [11, 20, 30] := by decide
+
+/-- `big_add_sound`: `add(x, y)` for operands of ANY two limb counts, from the constraints: limbs
+of `x`, `y` within their tracked bounds (the invariant), native limb-wise sums, then what
+`normalize` enforces on an arbitrary assignment (`AddSat`). The result is normalised, within its
+recorded bounds, and represents `x + y`. -/
+theorem big_add_sound (p lb numBits : Nat) (hp : 2 ^ (numBits - 1) ≤ p) (hlb : lb < numBits)
+    (x y z : BVar) (hx : limbsWithin x.limbs x.sb) (hy : limbsWithin y.limbs y.sb)
+    (h : AddSat p lb numBits x y z) :
+    limbsWithin z.limbs z.sb ∧ isNormalized lb z.sb = true ∧ (∀ l ∈ z.limbs, l < 2 ^ lb) ∧
+      bigValue lb z.limbs = bigValue lb x.limbs + bigValue lb y.limbs :=
+  addSat_sound p lb numBits hp hlb x y z hx hy h
+
+/-- Non-vacuity: a 1-limb `x` and a 2-limb `y` (the branch `y` wider), already-normalised sum. -/
+example : AddSat 101 4 7 ⟨[3], [2]⟩ ⟨[4, 1], [3, 1]⟩ ⟨[7, 1], [4, 1]⟩ := by
+  left; decide
+
+/-- The tracked bounds of a limb-wise sum never under-approximate, for any two limb counts. -/
+theorem big_add_bounds_sound (xs bx ys bY : List Nat) (hx : limbsWithin xs bx)
+    (hy : limbsWithin ys bY) :
+    limbsWithin (Big.zipAddLimbs xs ys) (Big.zipAddBounds bx bY) :=
+  limbsWithin_zipAdd xs bx ys bY hx hy
+
+/-- `mul_accum_within_bounds`: the accumulation loop of `mul` in the order of the code
+(`limbs[i+j] += xᵢ·yⱼ`, `bound[i+j] = bound_of_addition(bound[i+j], bxᵢ + byⱼ)`): the product limbs
+lie within the bounds the gadget tracks for them (so the bit lengths `normalize` then emits are
+those of real bounds) and represent the product — for all limb counts. -/
+theorem mul_accum_within_bounds (lb : Nat) (x y : BVar) (hx : limbsWithin x.limbs x.sb)
+    (hy : limbsWithin y.limbs y.sb) (hne : x.limbs ≠ [] → y.limbs ≠ []) :
+    limbsWithin (Big.mulAccum x y).1 (Big.mulAccum x y).2 ∧
+      bigValue lb (Big.mulAccum x y).1 = bigValue lb x.limbs * bigValue lb y.limbs :=
+  mulAccum_spec lb x y hx hy hne
+
+/-- The fold agrees with the schoolbook recursion and the imperative bound loop (sample; the
+driver re-checks the agreement on every `mul` of the correspondence). -/
+example : Big.mulFormsAgree ⟨[3, 2], [2, 2]⟩ ⟨[5, 7, 1], [3, 3, 1]⟩ = true ∧
+    Big.mulAccum ⟨[3, 2], [2, 2]⟩ ⟨[5, 7, 1], [3, 3, 1]⟩ = ([15, 31, 17, 2], [5, 6, 6, 3]) := by
+  decide
+
+/-- `big_mul_sound_from_constraints`: `mul(x, y)` — both operands normalised, accumulation loop,
+`normalize` — on an arbitrary assignment of every carry chain involved. -/
+theorem big_mul_sound_from_constraints (p lb numBits : Nat) (hp : 2 ^ (numBits - 1) ≤ p)
+    (hlb : lb < numBits) (x y z : BVar) (hx : limbsWithin x.limbs x.sb)
+    (hy : limbsWithin y.limbs y.sb) (h : MulSat p lb numBits x y z) :
+    limbsWithin z.limbs z.sb ∧ isNormalized lb z.sb = true ∧ (∀ l ∈ z.limbs, l < 2 ^ lb) ∧
+      bigValue lb z.limbs = bigValue lb x.limbs * bigValue lb y.limbs :=
+  mulSat_sound p lb numBits hp hlb x y z hx hy h
+
+/-- `big_sub_sound_from_constraints`: `res` prover-chosen with the range checks of
+`assign_bounded(·, x.nb_bits())` as emitted (`Big.boundedSb`), `res + y` normalised on an arbitrary
+assignment, asserted equal to `x`: `res = x - y` and `y ≤ x` (underflow ⇒ unsatisfiable). -/
+theorem big_sub_sound_from_constraints (p lb numBits : Nat) (hp : 2 ^ (numBits - 1) ≤ p)
+    (hlb : lb < numBits) (x y res : BVar) (hy : limbsWithin y.limbs y.sb)
+    (h : SubSat p lb numBits x y res) :
+    bigValue lb res.limbs = bigValue lb x.limbs - bigValue lb y.limbs ∧
+      bigValue lb y.limbs ≤ bigValue lb x.limbs :=
+  subSat_sound p lb numBits hp hlb x y res hy h
+
+/-- `big_div_rem_sound_from_constraints`: `q`, `r` prover-chosen with the emitted range checks;
+`q·y` (`MulSat`), `+ r` (`AddSat`), equal to `x`, `r < y`: quotient and remainder are pinned, on
+every assignment of every cell involved. -/
+theorem big_div_rem_sound_from_constraints (p lb numBits : Nat) (hp : 2 ^ (numBits - 1) ≤ p)
+    (hlb : lb < numBits) (x y q r : BVar) (hy : limbsWithin y.limbs y.sb)
+    (h : DivRemSat p lb numBits x y q r) :
+    bigValue lb q.limbs = bigValue lb x.limbs / bigValue lb y.limbs ∧
+      bigValue lb r.limbs = bigValue lb x.limbs % bigValue lb y.limbs :=
+  divRemSat_sound p lb numBits hp hlb x y q r hy h
+
+/-- `mod_mul_sound_from_constraints`: `mod_mul(x, y, m) = r` (`mul` then `div_rem` by `m`): the
+result is `x·y mod m`, reduced, and within its recorded bounds. -/
+theorem mod_mul_sound_from_constraints (p lb numBits : Nat) (hp : 2 ^ (numBits - 1) ≤ p)
+    (hlb : lb < numBits) (x y m r : BVar) (hx : limbsWithin x.limbs x.sb)
+    (hy : limbsWithin y.limbs y.sb) (hm : limbsWithin m.limbs m.sb)
+    (h : ModMulSat p lb numBits x y m r) :
+    limbsWithin r.limbs r.sb ∧
+    bigValue lb r.limbs = (bigValue lb x.limbs * bigValue lb y.limbs) % bigValue lb m.limbs ∧
+      bigValue lb r.limbs < bigValue lb m.limbs :=
+  modMulSat_sound p lb numBits hp hlb x y m r hx hy hm h
+
+/-- The native field of the BigUint gadget's deployments has `2^(NUM_BITS-1) ≤ p` and
+`LOG2_BASE < NUM_BITS` (side conditions of the theorems above, on the generated constants). -/
+theorem big_side_conditions :
+    (2 : Int) ^ (bitsNat Gen.secpBase_over_blsScalar.p.natAbs - 1) ≤ Gen.secpBase_over_blsScalar.p ∧
+      Gen.bigLog2Base < bitsNat Gen.secpBase_over_blsScalar.p.natAbs := by
+  decide +kernel
+
+/-! ## Modular exponentiation: induction over the square-and-multiply chain -/
+
+/-- `mod_exp_loop_invariant`: for EVERY exponent, EVERY fuel that covers its bits and EVERY
+assignment of the intermediate `mod_mul` results that satisfies their constraints (`MM a b r`
+implies `r = a·b mod m` and `r < m`: `mod_mul_sound_from_constraints`), a loop state
+`(n, tmp, res)` returns `out ≡ res·tmp^n (mod m)`; and `out < m` once `tmp` and `res` are reduced. -/
+theorem mod_exp_loop_invariant (MM : Nat → Nat → Nat → Prop) (m : Nat)
+    (hMM : ∀ a b r, MM a b r → r = a * b % m ∧ r < m)
+    (fuel n tmp : Nat) (res : Option Nat) (out : Nat) (hn : n < 2 ^ fuel) (hpos : 0 < n)
+    (h : ModExpLoopSat MM fuel n tmp res out) :
+    out % m = (accVal res * tmp ^ n) % m ∧
+      (tmp < m → (∀ a, res = some a → a < m) → out < m) :=
+  modExpLoopSat_spec MM m hMM fuel n tmp res out hn hpos h
+
+/-- `mod_exp_sound_end_to_end` (exponents `n ≥ 2`: the loop of `mod_exp`, started as the code
+does with `tmp = x`, `res = None`): for every exponent, every limb count and every assignment of
+the `mod_mul` results satisfying their constraints, the returned value is `x^n mod m`, reduced.
+(The first iteration always squares — `n / 2 > 0` — so `tmp` is reduced from the second iteration
+on; the first set bit copies `tmp`.) -/
+theorem mod_exp_sound_end_to_end (MM : Nat → Nat → Nat → Prop) (m : Nat)
+    (hMM : ∀ a b r, MM a b r → r = a * b % m ∧ r < m)
+    (fuel n x out : Nat) (hn : n < 2 ^ fuel) (h2 : 2 ≤ n)
+    (h : ModExpLoopSat MM fuel n x none out) : out = x ^ n % m := by
+  cases fuel with
+  | zero => simp at hn; omega
+  | succ fuel =>
+    unfold ModExpLoopSat at h
+    rw [if_neg (by omega)] at h
+    obtain ⟨res', hres, hnext⟩ := h
+    rw [if_pos (by omega)] at hnext
+    obtain ⟨t, ht, hrec⟩ := hnext
+    obtain ⟨et, hlt⟩ := hMM _ _ _ ht
+    have hn2 : n / 2 < 2 ^ fuel := by rw [Nat.pow_succ] at hn; omega
+    obtain ⟨i1, i2⟩ := modExpLoopSat_spec MM m hMM fuel (n / 2) t res' out hn2 (by omega) hrec
+    -- the accumulator after the first iteration: `x` (unreduced) or nothing
+    have hacc : accVal res' = x ^ (n % 2) ∧ (∀ a, res' = some a → n % 2 = 1 ∧ a = x) := by
+      by_cases hodd : n % 2 = 1
+      · rw [if_pos hodd] at hres
+        simp only at hres
+        subst hres
+        exact ⟨by simp [accVal, hodd], fun a ha => ⟨hodd, by cases ha; rfl⟩⟩
+      · rw [if_neg hodd] at hres
+        subst hres
+        have : n % 2 = 0 := by omega
+        exact ⟨by simp [accVal, this], fun a ha => by cases ha⟩
+    have hval : out % m = x ^ n % m := by
+      rw [i1, hacc.1, pow_split x n, et]
+      calc (x ^ (n % 2) * (x * x % m) ^ (n / 2)) % m
+          = ((x ^ (n % 2) % m) * ((x * x % m) ^ (n / 2) % m)) % m := by rw [Nat.mul_mod]
+        _ = ((x ^ (n % 2) % m) * ((x * x) ^ (n / 2) % m)) % m := by
+            rw [Nat.pow_mod (x * x % m), Nat.mod_mod, ← Nat.pow_mod]
+        _ = (x ^ (n % 2) * (x * x) ^ (n / 2)) % m := by rw [← Nat.mul_mod]
+    -- `out` is reduced: the reduced `tmp`, or the result of a `mod_mul`
+    suffices hout : out < m by rw [← hval, Nat.mod_eq_of_lt hout]
+    cases hr : res' with
+    | none => exact i2 hlt (fun a ha => by rw [hr] at ha; cases ha)
+    | some a =>
+      rw [hr] at hrec
+      exact modExpLoopSat_some_reduced MM m hMM fuel (n / 2) t a out hn2 (by omega) hrec
+
+example : (5 : Nat) ^ 3 % 7 = 6 := by decide
+
+/-- Exponents 0 and 1 (`div_rem(1, m)` / `div_rem(x, m)`, the repaired shortcuts) and the general
+case together: `mod_exp(x, n, m) = x^n mod m` for EVERY exponent, from the constraints of
+`div_rem` / `mod_mul` on arbitrary assignments. `r0`, `r1` are the remainders of the two shortcut
+divisions (pinned by `big_div_rem_sound_from_constraints`). -/
+theorem mod_exp_all_exponents (MM : Nat → Nat → Nat → Prop) (m : Nat)
+    (hMM : ∀ a b r, MM a b r → r = a * b % m ∧ r < m) (fuel n x out : Nat) (hn : n < 2 ^ fuel)
+    (h : (n = 0 ∧ out = 1 % m) ∨ (n = 1 ∧ out = x % m) ∨
+      (2 ≤ n ∧ ModExpLoopSat MM fuel n x none out)) :
+    out = x ^ n % m := by
+  rcases h with ⟨rfl, rfl⟩ | ⟨rfl, rfl⟩ | ⟨h2, h⟩
+  · simp
+  · simp
+  · exact mod_exp_sound_end_to_end MM m hMM fuel n x out hn h2 h
+
+/-- `mod_exp_complete`: the honest intermediate results (`modExpLoopVal`: the values the model's
+`Big.modExpLoop` computes) satisfy the loop's constraints whenever every honest `mod_mul` does, and
+the honest result is `x^n mod m` (for a modulus `m ≥ 1`... any `m`: `% 0` is the identity). -/
+theorem mod_exp_complete (MM : Nat → Nat → Nat → Prop) (m : Nat)
+    (hMM : ∀ a b, MM a b (a * b % m)) (fuel n x out : Nat)
+    (h : Big.modExpLoopVal m fuel n x none = some out) : ModExpLoopSat MM fuel n x none out :=
+  modExpLoopSat_honest MM m hMM fuel n x none out h
+
+example : Big.modExpLoopVal 7 4 3 5 none = some 6 ∧ Big.modExpLoopVal 1000 5 10 2 none = some 24 := by
+  decide
+
+/-- Non-vacuity of `mod_exp_sound_end_to_end`: its hypotheses are jointly satisfiable (`5^3 mod 7`
+with the honest `mod_mul` relation), and the fuel the model uses (`bits(n) + 1`) covers `n`. -/
+example : ModExpLoopSat (fun a b r => r = a * b % 7) 4 3 5 none 6 :=
+  mod_exp_complete (fun a b r => r = a * b % 7) 7 (fun _ _ => rfl) 4 3 5 6 (by decide)
+
+theorem mod_exp_fuel_suffices (n : Nat) : n < 2 ^ (natBits n + 1) :=
+  lt_of_lt_of_le (natBits_spec n) (Nat.pow_le_pow_right (by decide) (Nat.le_succ _))
+
+/-- `mod_exp_limb_level`: the two previous theorems instantiated with the LIMB-LEVEL constraint
+system of `mod_mul` (`MMc`: operands within their tracked bounds, every `normalize` carry chain
+and every `assign_bounded` witness prover-chosen with the range checks as emitted): `mod_exp`
+returns `x^n mod m` for every exponent `n ≥ 2`, every limb count of `x` and `m`. -/
+theorem mod_exp_limb_level (p lb numBits : Nat) (hp : 2 ^ (numBits - 1) ≤ p) (hlb : lb < numBits)
+    (m : BVar) (hm : limbsWithin m.limbs m.sb) (fuel n x out : Nat) (hn : n < 2 ^ fuel)
+    (h2 : 2 ≤ n) (h : ModExpLoopSat (MMc p lb numBits m) fuel n x none out) :
+    out = x ^ n % bigValue lb m.limbs :=
+  mod_exp_sound_end_to_end _ _ (mmc_sound p lb numBits hp hlb m hm) fuel n x out hn h2 h
+
+
+/-! ## Bit conversions of emulated elements (`assigned_to_le_bits`, and `assigned_to_le_bytes` /
+`assigned_to_le_chunks` built on it): `x + 1` is normalised (`normalize_sound_end_to_end`, or
+`make_canonical` = `norm_sound_end_to_end`), each limb is decomposed natively against its
+well-formed width (events `D` of the trace), surplus bits are asserted zero, and — when
+`enforce_canonical` — the bit vector is asserted `< m` (`is_canonical`) -/
+
+/-- `limb_bits_value`: on ANY assignment of the bit cells satisfying the native decompositions
+(limb `i` ↦ exactly `wf[i]` bits recomposing to it), the concatenated bits are the binary expansion
+of the limb integer `Σ 2^(L·i)·zᵢ`, for the widths `[L, …, L, msl]` of `well_formed_log2_bounds`. -/
+theorem limb_bits_value (L msl n : Nat) (zs : List Int) (bs : List (List Bool))
+    (h : DecompOk (List.replicate n L ++ [msl]) zs bs) :
+    ChipCfg.bitsValue bs.flatten = limbsValue L zs ∧ bs.flatten.length = L * n + msl :=
+  decomp_flatten_value L msl n zs bs h
+
+/-- `to_le_bits_sound_end_to_end`: let `zs` be the limbs returned by the normalisation of `x + 1`
+(so `1 + Σ zs ≡ V + 1 (mod m)` for the emulated value `V` of `x`), `bs` ANY bit assignment
+satisfying the native decompositions, `kept` the returned bits and `dropped` the surplus ones
+(asserted zero; `pad` constant zero bits when more bits are requested than the limbs hold). Then
+the returned bits are the binary expansion of an integer `B` with `B ≡ V (mod m)` and
+`0 ≤ B < 2^#kept` — SOME representative of the residue; and if the canonicity assertion
+`B < m` holds (`enforce_canonical`), `B = V mod m`: the bits of THE CANONICAL representative.
+A prover cannot obtain the bits of another residue, nor (when canonical) of `V + m`. -/
+theorem to_le_bits_sound_end_to_end (L msl n pad : Nat) (m V : Int) (zs : List Int)
+    (bs : List (List Bool)) (kept dropped : List Bool)
+    (hd : DecompOk (List.replicate n L ++ [msl]) zs bs)
+    (hres : (1 + limbsValue L zs) % m = (V + 1) % m)
+    (hsplit : kept ++ dropped = bs.flatten ++ List.replicate pad false)
+    (hdrop : dropped.all (fun x => !x) = true) :
+    ChipCfg.bitsValue kept = limbsValue L zs ∧ ChipCfg.bitsValue kept % m = V % m ∧
+      0 ≤ ChipCfg.bitsValue kept ∧ ChipCfg.bitsValue kept < 2 ^ kept.length ∧
+      (ChipCfg.bitsValue kept < m → ChipCfg.bitsValue kept = V % m) := by
+  have hv := (decomp_flatten_value L msl n zs bs hd).1
+  have e := congrArg ChipCfg.bitsValue hsplit
+  rw [bitsValue_append, bitsValue_append, bitsValue_all_false _ hdrop, bitsValue_replicate_false,
+    hv] at e
+  have hk : ChipCfg.bitsValue kept = limbsValue L zs := by simpa using e
+  have hmod : limbsValue L zs % m = V % m := by
+    have h1 := Int.emod_emod_of_dvd (1 + limbsValue L zs - (V + 1)) (dvd_refl m)
+    have h2 : (1 + limbsValue L zs - (V + 1)) % m = 0 :=
+      Int.emod_eq_emod_iff_emod_sub_eq_zero.mp hres
+    have e2 : 1 + limbsValue L zs - (V + 1) = limbsValue L zs - V := by ring
+    rw [e2] at h2
+    exact Int.emod_eq_emod_iff_emod_sub_eq_zero.mpr h2
+  refine ⟨hk, by rw [hk]; exact hmod, bitsValue_nonneg _, bitsValue_lt _, fun hlt => ?_⟩
+  have h0 := bitsValue_nonneg kept
+  rw [← hmod, ← hk, Int.emod_eq_of_lt h0 hlt]
+
+/-- Non-vacuity: `m = 11`, widths `[2, 2]`, `V = 6`: limbs `[2, 1]` (`1 + 6 = 7 = V + 1`),
+bits `01 10`. -/
+example : DecompOk (List.replicate 1 2 ++ [2]) [2, 1] [[false, true], [true, false]] ∧
+    (1 + limbsValue 2 [2, 1]) % 11 = ((6 : Int) + 1) % 11 := by
+  refine ⟨?_, by decide⟩
+  simp [DecompOk, ChipCfg.bitsValue]
+
+/-- `to_le_bits_respects_residue`: two representations of ONE residue (two elements `x`, `x'` with
+the same emulated value `V`, whatever their limbs — well-formed or lazily added chains —, and
+whatever well-formed vectors `zs`, `zs'` the prover puts in the two normalisations) give THE SAME
+canonical bits; conversely equal canonical bits of the same length come from the same residue. -/
+theorem to_le_bits_respects_residue (L msl n pad pad' : Nat) (m V V' : Int) (zs zs' : List Int)
+    (bs bs' : List (List Bool)) (kept dropped kept' dropped' : List Bool)
+    (hd : DecompOk (List.replicate n L ++ [msl]) zs bs)
+    (hd' : DecompOk (List.replicate n L ++ [msl]) zs' bs')
+    (hres : (1 + limbsValue L zs) % m = (V + 1) % m)
+    (hres' : (1 + limbsValue L zs') % m = (V' + 1) % m)
+    (hsplit : kept ++ dropped = bs.flatten ++ List.replicate pad false)
+    (hsplit' : kept' ++ dropped' = bs'.flatten ++ List.replicate pad' false)
+    (hdrop : dropped.all (fun x => !x) = true) (hdrop' : dropped'.all (fun x => !x) = true)
+    (hcan : ChipCfg.bitsValue kept < m) (hcan' : ChipCfg.bitsValue kept' < m)
+    (hlen : kept.length = kept'.length) :
+    kept = kept' ↔ V % m = V' % m := by
+  have a := (to_le_bits_sound_end_to_end L msl n pad m V zs bs kept dropped hd hres hsplit hdrop).2.2.2.2 hcan
+  have b := (to_le_bits_sound_end_to_end L msl n pad' m V' zs' bs' kept' dropped' hd' hres' hsplit'
+    hdrop').2.2.2.2 hcan'
+  constructor
+  · intro h; rw [← a, ← b, h]
+  · intro h; exact bitsValue_inj kept kept' hlen (by rw [a, b, h])
+
+/-- `to_le_bits_complete`: the honest bits of limbs within the well-formed widths satisfy the
+native decomposition constraints (and `toBits` is what the model's `toLeBits` prints). -/
+theorem to_le_bits_complete (ks : List Nat) (zs : List Int) (h : bitsOk ks zs) :
+    DecompOk ks zs ((zs.zip ks).map (fun t => (ChipCfg.toBits t.2 t.1).1)) :=
+  decompOk_honest ks zs h
+
+/-- `to_le_bytes_value` / chunks: the bytes of `assigned_to_le_bytes` (each byte the native linear
+combination `Σ 2^i·bitᵢ` of 8 consecutive returned bits) and the chunks of `assigned_to_le_chunks`
+when the chunk width does not divide `LOG2_BASE` (same construction with `w` bits) are the
+little-endian base-`2^w` digits of the SAME integer as the bits — hence, by
+`to_le_bits_sound_end_to_end`, of the canonical representative (bytes: `enforce_canonical = true`)
+or of some representative of the residue (chunks). For every bit vector and every width. -/
+theorem to_le_chunks_value (w : Nat) (hw : 0 < w) (bits : List Bool) :
+    limbsValue w ((ChipCfg.chunksOf (bits.length + 1) w bits).map ChipCfg.bitsValue) =
+      ChipCfg.bitsValue bits :=
+  chunks_value_aux w hw bits.length bits (Nat.le_refl _)
+
+example : (ChipCfg.chunksOf 6 2 [true, false, true, true, true]).map ChipCfg.bitsValue = [1, 3, 1] ∧
+    ChipCfg.bitsValue [true, false, true, true, true] = 29 := by decide
+
+/-! ## `is_zero` / `is_equal` at the level of the chip: the split step mechanised -/
+
+/-- `within` as a Boolean (for the kernel-checked facts about the compiled-in sets). -/
+def withinB : List (Int × Int) → List Int → Bool
+  | b :: bs, v :: vs => decide (b.1 ≤ v) && decide (v ≤ b.2) && withinB bs vs
+  | [], [] => true
+  | _, _ => false
+
+theorem within_of_withinB : ∀ (bs : List (Int × Int)) (vs : List Int), withinB bs vs = true →
+    within bs vs
+  | [], [], _ => trivial
+  | b :: bs, v :: vs, h => by
+    simp only [withinB, Bool.and_eq_true, decide_eq_true_eq] at h
+    exact ⟨⟨h.1.1, h.1.2⟩, within_of_withinB bs vs h.2⟩
+  | [], _ :: _, h => by simp [withinB] at h
+  | _ :: _, [], h => by simp [withinB] at h
+
+/-- `is_zero_sound_end_to_end` (`is_zero(d)`; `is_equal(x, y)` with `d = x - y` lazily subtracted,
+`assert_non_zero`, `is_equal_to_fixed`): the chip normalises `d` (either branch of `normalize`, on
+ANY assignment: `NormalizedBy`) and compares the returned limbs `zs` with `limbs_of_zero` cell by
+cell. For a parameter set whose well-formed widths are `[L, …, L, msl]` with `msl ≤ L`,
+`base^(n-1)·2^msl < 2m` and whose `limbs_of_zero` is within `well_formed_bounds` and represents `m`
+(all kernel-checked for the compiled-in sets: `compiled_is_zero_hypotheses`), the comparison holds
+IF AND ONLY IF `X ≡ Y (mod m)`, where `ds` (within the tracked bounds of `d`) represents `X - Y`.
+The split of `within c.wfBounds zs` into low limbs and top limb — left unmechanised before — is
+`within_split`. -/
+theorem is_zero_sound_end_to_end (c : ChipCfg) (hc : ChipCfg.ofParams c.P = some c)
+    (hm : 0 < c.P.m) (hmods : ∀ mj ∈ c.P.moduli, 0 < mj)
+    (hwfL : ∀ k ∈ c.wfLog2, k ≤ c.P.log2Base) (hwn : c.wfLog2.length = c.P.nbLimbs)
+    (msl : Nat) (hshape : c.wfLog2 = List.replicate (c.P.nbLimbs - 1) c.P.log2Base ++ [msl])
+    (hk : msl ≤ c.P.log2Base)
+    (h2m : (2 : Int) ^ (c.P.log2Base * (c.P.nbLimbs - 1) + msl) < 2 * c.P.m)
+    (z0 : List Int) (hz0w : within c.wfBounds z0) (hz0 : 1 + limbsValue c.P.log2Base z0 = c.P.m)
+    (d : FVar) (ds zs : List Int) (X Y : Int) (hn : d.bounds.length = c.P.nbLimbs)
+    (hd : within d.bounds ds)
+    (hres : (1 + limbsValue c.P.log2Base ds) % c.P.m = (X - Y) % c.P.m)
+    (h : NormalizedBy c d ds zs) :
+    zs = z0 ↔ X % c.P.m = Y % c.P.m := by
+  obtain ⟨hv, hw⟩ := normalize_sound_end_to_end c hc hm hmods hwfL hwn d ds zs hn hd h
+  unfold ChipCfg.wfBounds at hw hz0w
+  rw [hshape] at hw hz0w
+  obtain ⟨lo, top, rfl, hl, hb, t0, t1⟩ := within_split msl _ zs hw
+  obtain ⟨lo0, top0, rfl, hl0, hb0, s0, s1⟩ := within_split msl _ z0 hz0w
+  simp only [List.length_replicate] at hl hl0
+  exact is_equal_sound_end_to_end c.P.log2Base msl c.P.m X Y lo lo0 top top0 (by rw [hl, hl0]) hk
+    (bitsOk_replicate _ _ lo hb) t0 t1 (bitsOk_replicate _ _ lo0 hb0) s0 s1
+    (by rw [hl]; exact h2m) hz0 (by rw [← hv]; exact hres)
+
+/-- The hypotheses of `is_zero_sound_end_to_end` about the parameter set, as a Boolean. -/
+def isZeroHypOk (P : Params) : Bool :=
+  match ChipCfg.ofParams P with
+  | none => false
+  | some c =>
+    let msl := c.wfLog2.getLastD 0
+    decide (c.wfLog2 = List.replicate (c.P.nbLimbs - 1) c.P.log2Base ++ [msl])
+      && decide (msl ≤ c.P.log2Base)
+      && decide ((2 : Int) ^ (c.P.log2Base * (c.P.nbLimbs - 1) + msl) < 2 * c.P.m)
+      && withinB c.wfBounds c.limbsOfZero
+      && decide (1 + limbsValue c.P.log2Base c.limbsOfZero = c.P.m)
+      && decide (c.L = c.P.log2Base) && decide (c.n = c.P.nbLimbs)
+
+/-- Every compiled-in parameter set satisfies the hypotheses of `is_zero_sound_end_to_end` with
+`z0 = limbs_of_zero` (what `is_zero` compares against): the shape `[L, …, L, msl]` of the
+well-formed widths (also the shape `limb_bits_value` needs), `msl ≤ L`, `base^(n-1)·2^msl < 2m`,
+`limbs_of_zero` within `well_formed_bounds` and representing `m`. Re-evaluated by the kernel on
+the constants parsed from `params.rs` on every run. -/
+theorem compiled_is_zero_hypotheses : ∀ P ∈ Gen.paramSets, isZeroHypOk P = true := by
+  decide +kernel
 
 end MidnightZK.C05
